@@ -582,6 +582,29 @@ def run(ctx):
                                    for c, a, b in model_pieces) + ']'
             exprs.append(f'(show_segments {lit})')
             plans.append((case, [(c, min(a, b), max(a, b)) for c, a, b in model_pieces], lin))
+    # ---- one path laid over two models, one after the other (a 3 x 5 grid, then the same grid extended to 3 x 10): the pieces of
+    # the second transect are the cells of the second model that the path crosses
+    base_lon = [float(v) for v in range(10)]
+    both = []
+    for nx_ in (5, 10):
+        g_ = xarray.Dataset(coords={'lat': ('lat', [0.0, 1.0, 2.0], {'units': 'degrees_north'}),
+                                    'lon': ('lon', base_lon[:nx_], {'units': 'degrees_east'}),
+                                    'zc': ('k', [0.5, 1.5], {'positive': 'down', 'units': 'm', 'long_name': 'depth', 'axis': 'Z'})})
+        g_['field'] = (('k', 'lat', 'lon'), numpy.arange(2 * 3 * nx_, dtype='f8').reshape(2, 3, nx_))
+        both.append(g_)
+    same_line = shapely.LineString([(-0.25, 0.9), (9.25, 1.1)])
+    got_cells = []
+    for g_ in both:
+        with warnings.catch_warnings():
+            warnings.simplefilter('ignore')
+            r_ = attempt(lambda: [int(s_.linear_index) for s_ in transect_mod.Transect(g_, same_line, depth='zc').segments])
+        got_cells.append(r_)
+    ctx.case(('same path', 'two models'), True)
+    ctx.count('the same path over two models')
+    want_second = sorted({int(k_) for k_, p_ in enumerate(both[1].ems.polygons) if p_ is not None and p_.intersection(same_line).length > 0})
+    if got_cells[1][0] != 'ok' or sorted(set(got_cells[1][1])) != want_second:
+        ctx.report('property', f'the same path laid over a second, larger model after a first one: pieces in cells {got_cells[1][1]}, the path '
+                   f'crosses the cells {want_second} of that model', {'dataset': 'cf1d 3x10 after cf1d 3x5', 'path': [list(c_) for c_ in same_line.coords]})
     picks = coq_eval_sharded(['Model.TransectDist'], pick_exprs, shard=max(20, len(pick_exprs) // 12), workers=12)
     ctx.leg('vertex_picks', len(pick_exprs))
     import pyproj
